@@ -250,8 +250,8 @@ def check(tier):
         wide = battery_wide(work, tier)
         wpath = os.path.join(work, "battery-wide.json")
         json.dump(wide, open(wpath, "w"))
-        wjobs = [("hist", [cfg], wpath, work, 9000 + i) for i, cfg in enumerate(("fresh", "user", "user_nodetail", "user_hook"))]
-        with cf.ThreadPoolExecutor(max_workers=4) as ex:
+        wjobs = [("hist", [cfg], wpath, work, 9000 + i) for i, cfg in enumerate(("fresh", "user", "user_nodetail", "user_hook", "user_omit"))]
+        with cf.ThreadPoolExecutor(max_workers=5) as ex:
             wruns = list(ex.map(child, wjobs))
         wtp = os.path.join(work, "trace-wide.json")
         json.dump([{"events": r["events"]} for r in wruns], open(wtp, "w"))
